@@ -451,9 +451,27 @@ class Interval:
                     out[k] = u
         return out
 
+    def _thread(self, bb, st):
+        """Jump threading: when block bb does nothing but switch on a local whose value is one known constant
+        in `st` (the join block of `let m = matches!(x, A..=B)`: each predecessor stores `true` or `false`),
+        return the successor that state takes, so that the facts established on the way to each predecessor
+        are not merged away at the join; else None."""
+        blk = self.body.blocks[bb]
+        t = blk["term"]
+        if blk["stmts"] or t["k"] != "switch" or not is_place(t["discr"]) or t["discr"]["p"]["pr"]:
+            return None
+        v = st.get(t["discr"]["p"]["l"])
+        if not v or len(v) != 1 or v[0][0] != v[0][1]:
+            return None
+        for val, tgt in t["targets"]:
+            if val == v[0][0]:
+                return tgt
+        return t["otherwise"]
+
     def run(self):
         body = self.body
         self.entry = {0: {}}
+        self.threaded = {}
         work = [0]
         count = {}
         while work:
@@ -463,6 +481,12 @@ class Interval:
                 # unreachable refinement: an empty interval set means the edge is infeasible
                 if any(v == () for v in s2.values()):
                     continue
+                for _ in range(4):
+                    nxt = self._thread(succ, s2)
+                    if nxt is None:
+                        break
+                    self.threaded[succ] = self.join(self.threaded[succ], s2) if succ in self.threaded else dict(s2)
+                    succ = nxt
                 if succ not in self.entry:
                     self.entry[succ] = s2
                     work.append(succ)
@@ -479,9 +503,11 @@ class Interval:
 
     def state_after(self, bb, idx):
         """State after statement `idx` of block bb."""
-        if bb not in self.entry:
+        if bb not in self.entry and bb not in self.threaded:
             return None
-        st = dict(self.entry[bb])
+        st = dict(self.entry[bb]) if bb in self.entry else dict(self.threaded[bb])
+        if bb in self.entry and bb in self.threaded:
+            st = self.join(st, self.threaded[bb])
         for i, s in enumerate(self.body.blocks[bb]["stmts"]):
             self.transfer_stmt(st, s)
             if i == idx:
@@ -490,9 +516,11 @@ class Interval:
 
     def at_call(self, bb, op):
         """Intervals of operand `op` as evaluated at the terminator of block bb."""
-        if bb not in self.entry:
+        if bb not in self.entry and bb not in self.threaded:
             return ()  # unreachable
-        st = dict(self.entry[bb])
+        st = dict(self.entry[bb]) if bb in self.entry else dict(self.threaded[bb])
+        if bb in self.entry and bb in self.threaded:
+            st = self.join(st, self.threaded[bb])
         for s in self.body.blocks[bb]["stmts"]:
             self.transfer_stmt(st, s)
         return self.val(st, op)
